@@ -13,6 +13,7 @@
 #define VERIF_ALLOCSHIM_H
 #include <stddef.h>
 extern volatile int shim_on;
+extern volatile int shim_always; /* keep the shim active outside GUARDED sections too */
 extern int shim_fence;
 extern long shim_fail_at;     /* 0 = never */
 extern long shim_calls;       /* allocations requested since shim_reset() */
